@@ -40,18 +40,30 @@ _orig = {}
 
 
 def install():
-  _orig.update(rename=fio.rename, remove=fio.remove, rmtree=fio.rmtree, GFile=fio.GFile, shutil_rmtree=shutil.rmtree, os_rename=os.rename, os_mkdir=os.mkdir)
+  _orig.update(rename=fio.rename, remove=fio.remove, rmtree=fio.rmtree, GFile=fio.GFile, shutil_rmtree=shutil.rmtree, os_rename=os.rename, os_mkdir=os.mkdir,
+               os_remove=os.remove)
+
+  def native():
+    # the native shim of flax/io.py (no tensorflow): its operations are made of os / shutil primitives, and those are the crash points
+    return fio.io_mode == fio.BackendMode.DEFAULT
 
   def rename(src, dst, overwrite=False):
     import threading, time
     if threading.current_thread() is not threading.main_thread():
       time.sleep(0.05)       # an async save is still in flight when the next save_checkpoint call starts
-    INJ.tick('rename')
+    if not native():
+      INJ.tick('rename')
     return _orig['rename'](src, dst, overwrite=overwrite)
 
   def remove(path):
-    INJ.tick('remove')
+    if not native():
+      INJ.tick('remove')
     return _orig['remove'](path)
+
+  def os_remove(path, *a, **k):
+    if native() and str(path).startswith(SCRATCH):
+      INJ.tick('remove')
+    return _orig['os_remove'](path, *a, **k)
 
   def rmtree_2step(path, real):
     INJ.tick('rmtree_begin')
@@ -64,6 +76,8 @@ def install():
     return real(path)
 
   def rmtree(path):
+    if native():
+      return _orig['rmtree'](path)        # goes through shutil.rmtree below
     return rmtree_2step(path, _orig['rmtree'])
 
   def sh_rmtree(path, *a, **k):
@@ -107,9 +121,11 @@ def install():
     if TMPSUF in os.path.basename(str(src)) and str(src).startswith(SCRATCH):
       INJ.tick('filldir')
       INJ.tick('rename')
+    elif native() and str(src).startswith(SCRATCH):
+      INJ.tick('rename')
     return _orig['os_rename'](src, dst, *a, **k)
   fio.rename, fio.remove, fio.rmtree, fio.GFile = rename, remove, rmtree, GFile
-  shutil.rmtree, os.rename, os.mkdir = sh_rmtree, os_rename, os_mkdir
+  shutil.rmtree, os.rename, os.mkdir, os.remove = sh_rmtree, os_rename, os_mkdir, os_remove
 
 
 def classify(name, prefix):
@@ -171,6 +187,15 @@ def run_history(h, hid):
   os.makedirs(d)
   prefix = h['prefix']
   out = []
+  mode0 = fio.io_mode
+  fio.set_mode(fio.BackendMode.DEFAULT if h.get('native_io') else mode0)
+  try:
+    return _run_history(h, d, prefix, out)
+  finally:
+    fio.set_mode(mode0)
+
+
+def _run_history(h, d, prefix, out):
   am = C.AsyncManager() if h.get('async') else None
   for sv in h['saves']:
     step = sv['step']
